@@ -145,6 +145,7 @@ def run(ctx):
     ctx.rule = ('projects of two installed apps (cross-app ForeignKey and ManyToMany) plus a stale app with 1-2 models, '
                 'M2M, a foreign key into an installed app and table names that are prefixes of other tables; '
                 '{no purge, --purge}; DeleteModel / DeleteApplication through an evolution; non-trivial = every case')
+    relabelled_app_probe(ctx)
     n = 40 if quick else 400
     done = tries = 0
     while done < n and tries < n * 5 and ctx.time_left() > 25:
@@ -284,6 +285,41 @@ def run(ctx):
                 if len(labels) != len(set(labels)):
                     ctx.fail(None, 'an evolution is recorded twice after the purge: %s'
                              % sorted(x for x in set(labels) if labels.count(x) > 1), rep)
+
+
+def relabelled_app_probe(ctx):
+    """an installed app that was given a new label (AppConfig.label) is NOT a stale app: the difference between the
+    stored signature (old id) and the current one (new id, the old one as legacy label) lists nothing as deleted, so a
+    purge has nothing to take.  The rig's apps cannot change their label inside one process; the step that decides
+    what a purge may take - the `deleted` part of the signature difference - is exercised directly."""
+    from django_evolution.diff import Diff
+    from django_evolution.signature import AppSignature, ModelSignature, ProjectSignature
+
+    def project(apps):
+        p = ProjectSignature()
+        for app_id, legacy, models in apps:
+            a = AppSignature(app_id=app_id, legacy_app_label=legacy)
+            for m in models:
+                a.add_model_sig(ModelSignature(model_name=m, table_name='%s_%s' % (legacy or app_id, m.lower())))
+            p.add_app_sig(a)
+        return p
+    cases = [
+        # (stored, current, ids that are really gone)
+        ([('lapp', None, ['Crate', 'Pallet']), ('gone', None, ['Old'])],
+         [('depot', 'lapp', ['Crate', 'Pallet'])], ['gone']),
+        ([('lapp', None, ['Crate'])], [('depot', 'lapp', ['Crate'])], []),
+        ([('lapp', None, ['Crate']), ('shop', None, ['Item'])], [('shop', None, ['Item'])], ['lapp']),
+        # the relabelled app listed after an app that has the old id as its own id: the id wins
+        ([('lapp', None, ['Crate'])], [('depot', 'lapp', ['Crate']), ('lapp', None, ['Crate'])], []),
+    ]
+    for stored, current, gone in cases:
+        d = Diff(project(stored), project(current))
+        deleted = sorted(d.deleted)
+        ctx.count('relabelled_app_probe')
+        ctx.case({'stored': stored, 'current': current}, nontrivial=True, sample_cap=2)
+        if deleted != sorted(gone):
+            ctx.fail(None, 'apps listed as deleted (what a purge would take): %s, really gone: %s' % (deleted, sorted(gone)),
+                     {'stored': stored, 'current': current})
 
 
 def replay(ctx, obj):
